@@ -317,8 +317,10 @@ def finish(run, level, coverage, assumptions, kn, viol, confirm=None, extra=None
     if extra:
         ev.update(extra)
     if REPO == "/repo":
-        os.makedirs(os.path.join(VERIF, "evidence"), exist_ok=True)
-        with open(os.path.join(VERIF, "evidence", run.pid + ".json"), "w") as f:
+        # checks beyond the listed properties (ids E..) keep their evidence apart from the properties' evidence files
+        edir = "evidence-extra" if run.pid.startswith("E") else "evidence"
+        os.makedirs(os.path.join(VERIF, edir), exist_ok=True)
+        with open(os.path.join(VERIF, edir, run.pid + ".json"), "w") as f:
             json.dump(ev, f, indent=1)
     else:
         log("[note] VERIF_REPO=%s: evidence file not rewritten (evidence is only written for /repo itself)" % REPO)
